@@ -342,6 +342,24 @@ func init() {
 		return res
 	})
 
+	reg("github.com/nyaruka/goflow/flows/definition/legacy/expressions.migrateExpression", func(fr *frame, args []value) value {
+		i := fr.i
+		p := i.prog.ImportedPackage("github.com/nyaruka/goflow/flows/definition/legacy/expressions")
+		model := p.Func("verifMigrateExpression")
+		if model == nil {
+			panic(unsupported{"legacy migrateExpression: the generated ANTLR parser is not encoded and the parser model overlay is not loaded"})
+		}
+		res := i.callFn(fr, model, args[0], args[1], args[2]).(tuple)
+		if e, ok := res[1].(iface); ok && e.t != nil {
+			if g := p.Var("errVerifNonASCII"); g != nil {
+				if ge, ok := (*i.globals[g]).(iface); ok && ge.t != nil && e.v == ge.v {
+					panic(unsupported{"legacy migrateExpression: non-ASCII expression is outside the parser model"})
+				}
+			}
+		}
+		return res
+	})
+
 	// ---- environment stubs (class B) ----------------------------------
 	reg("github.com/nyaruka/gocommon/uuids.NewV4", func(fr *frame, args []value) value {
 		fr.i.uuidSeq++
